@@ -88,11 +88,13 @@ Proof.
 Qed.
 Lemma enumerate_table {A} (f : A -> rval) (d : A) l :
   py_iter (py_enumerate (VList (map f l))) =
-  VList (map (fun i => VTuple [VInt (Z.of_nat i); f (nth i l d)]) (seq 0 (length l))).
+  VList (map (urow (fun i => f (nth i l d))) (seq 0 (length l))).
 Proof.
   change (py_iter (py_enumerate (VList (map f l)))) with (@VList R (enum_from (Z.of_nat 0) (map f l))).
   rewrite (enum_from_map f d). f_equal. apply map_ext. intro i. rewrite Nat.sub_0_r. reflexivity.
 Qed.
+Lemma bind_VList' (l : list rval) (k : rval -> rval) : bind (VList l) k = k (VList l).
+Proof. reflexivity. Qed.
 
 (* ------------------------------------------------------------------ the fundamental arguments *)
 (* Julian centuries from J2000.0 and the five polynomials (degrees), with the code's literals *)
@@ -114,15 +116,104 @@ Ltac py_user_rw tac ::=
   first [ rewrite check_input_epoch | rewrite init_float_obj | rewrite init_empty_obj
         | rewrite rmul_int_obj | rewrite iadd_obj ].
 
-Goal forall j, f_nutation_longitude Rops (VTuple [epo j]) (VDict []) = VNone.
+(* what the loops compute *)
+Definition FL (t : R) : list R := map red360 (fund t).          (* the five Angle objects' stored degrees *)
+Definition Nij (i jj : nat) : Z := nth jj (nth i AT []) 0%Z.       (* multiplier n_ij *)
+Definition Uij (t : R) (i jj : nat) (a : R) : R := red360 (a + red360 (nth jj (FL t) 0 * IZR (Nij i jj))).
+Definition acc_of (g : R -> R) (d c a : R) : R := d + c * g (a * (PI / 180)) / Rlit 100000 (-1).
+(* stored argument (degrees) of row i, and the accumulated sum in units of 1e-4 arcsec / 1e4 *)
+Definition argrow (t : R) (i : nat) : R := row_arg 5 (Rlit 0 (-1)) Nij (Uij t) i.
+Definition coefrow (CT : list (R * R)) (i : nat) : rval := enc_coefrow (nth i CT (0, 0)).
+Definition coefA (CT : list (R * R)) (i : nat) : R := fst (nth i CT (0, 0)).
+Definition coefB (CT : list (R * R)) (i : nat) : R := snd (nth i CT (0, 0)).
+Definition nut_raw (g : R -> R) (CT : list (R * R)) (t : R) : R :=
+  fold_left (fun d i => acc_of g d (coefA CT i + coefB CT i * t) (row_arg 5 (Rlit 0 (-1)) Nij (Uij t) i))
+            (seq 0 (length CT)) (Rlit 0 (-1)).
+Lemma enumerate_coef CT :
+  py_iter (py_enumerate (VList (map enc_coefrow CT))) = VList (map (urow (coefrow CT)) (seq 0 (length CT))).
+Proof. exact (enumerate_table enc_coefrow (0, 0) CT). Qed.
+
+Lemma Nij_getitem i jj : (i < length AT)%nat -> (jj < 5)%nat ->
+  py_getitem Rops (py_getitem Rops (VList (map enc_argrow AT)) (VInt (Z.of_nat i))) (VInt (Z.of_nat jj))
+  = VInt (Nij i jj).
 Proof.
-  intros. unfold epo. Time pyrunA.
-  fold (Tc j). fold (polyD (Tc j)) (polyM (Tc j)) (polyM' (Tc j)) (polyF (Tc j)) (polyO (Tc j)).
-  cbv beta zeta.
-  rewrite sine_table_enc. rewrite (enumerate_table enc_coefrow (0, 0)).
-  unfold bind at 1. cbv beta.
-  match goal with |- context [seq_of (VList ?l)] => change (seq_of (VList l)) with l end.
+  intros Hi Hj. rewrite (getitem_map_nth enc_argrow AT i []) by exact Hi.
+  unfold enc_argrow. rewrite (getitem_map_nth (@VInt R) _ jj 0%Z).
+  - reflexivity.
+  - rewrite (AT_rows (nth i AT [])); [exact Hj | apply nth_In; exact Hi].
+Qed.
+
+Lemma FL_getitem t jj : (jj < 5)%nat ->
+  py_getitem Rops (VList (map ang (FL t))) (VInt (Z.of_nat jj)) = ang (nth jj (FL t) 0).
+Proof. intro Hj. apply getitem_map_nth. exact Hj. Qed.
+
+(* one pass of the generic theorem; [tbl_enc] : g_TABLE Rops = VList (map enc_coefrow CT).
+   Until the list of rows is abstracted ([remember]) only lemma rewriting is used on the goal: a
+   conversion step there would make the kernel execute the loop on the concrete table at Qed. *)
+Ltac nut_tac j tbl_enc CT trig Hlen :=
+  unfold epo; pyrunC;
+  fold (Tc j); fold (polyD (Tc j)) (polyM (Tc j)) (polyM' (Tc j)) (polyF (Tc j)) (polyO (Tc j));
+  cbv beta zeta;
+  rewrite tbl_enc; rewrite (enumerate_coef CT);
+  let rows := fresh "rows" in let Hrows := fresh "Hrows" in
+  remember (map (urow (coefrow CT)) (seq 0 (length CT))) as rows eqn:Hrows;
+  rewrite bind_VList'; cbv beta;
+  match goal with |- context [seq_of (VList ?l)] => change (seq_of (VList l)) with l end;
+  expose_R;
+  (* the generated loop is an instance of nut_fix: unification finds the ten parameters; the kernel is
+     given the beta-delta-normal form of the instance (syntactically the generated text) and the
+     unfolding equation separately - a direct [change] makes its conversion check run away *)
   match goal with |- ?f _ _ _ _ _ _ _ = _ =>
-     let g := open_constr:(nut_fix _ _ _ _ _ _ _ _ _ _) in unify f g; change f with g end.
-  Show.
-Abort.
+     let g := open_constr:(nut_fix _ _ _ _ _ _ _ _ _ _) in unify f g;
+     let g' := eval cbv beta delta [nut_fix] in g in
+     change f with g';
+     let HH := fresh "HH" in
+     assert (HH : g' = g) by abstract (cbv beta delta [nut_fix]; reflexivity);
+     rewrite HH; clear HH end;
+  lazymatch goal with
+  | |- nut_fix ?KK ?IA ?IC ?RNG ?CC0 ?CC1 ?CCADD ?AACC ?CCOND ?UUPD _ ?aa ?cc (VFloat ?dd) ?ii ?jj0 ?vv = _ =>
+    assert (HIA : IA = angv (Rlit 0 (-1))) by exact init_empty_obj;
+    assert (HIC : IC = VFloat (Rlit 0 (-1))) by reflexivity;
+    assert (HRNG : RNG = VList (zrange_nat 0 5)) by reflexivity;
+    assert (HC0 : forall i, (i < length CT)%nat -> CC0 (urow (coefrow CT) i) = VFloat (coefA CT i)) by (intros; reflexivity);
+    assert (HC1 : forall i, (i < length CT)%nat -> CC1 (urow (coefrow CT) i) = VFloat (coefB CT i)) by (intros; reflexivity);
+    assert (HCADD : forall i c, (i < length CT)%nat ->
+                    CCADD (VFloat c) (urow (coefrow CT) i) = VFloat (c + coefB CT i * Tc j));
+    [ intros i c _; cbv beta;
+      change (py_getitem Rops (item (urow (coefrow CT) i) 1) (VInt 1)) with (@VFloat R (coefB CT i)); pyrun; reflexivity | ];
+    assert (HACC : forall d c a, AACC (VFloat d) (VFloat c) (angv a) = VFloat (acc_of trig d c a));
+    [ intros d c a; cbv beta; unfold angv; pyrunC; reflexivity | ];
+    assert (HCOND : forall i jj, (i < length CT)%nat -> (jj < 5)%nat ->
+                    CCOND (urow (coefrow CT) i) (VInt (Z.of_nat jj)) = VInt (Nij i jj));
+    [ intros i jj Hi Hjj; cbv beta; change (item (urow (coefrow CT) i) 0) with (@VInt R (Z.of_nat i));
+      rewrite arg_table_enc; apply Nij_getitem; [ pose proof Hlen; lia | exact Hjj ] | ];
+    assert (HUPD : forall i jj a, (i < length CT)%nat -> (jj < 5)%nat ->
+                   UUPD (urow (coefrow CT) i) (VInt (Z.of_nat jj)) (angv a) = angv (Uij (Tc j) i jj a));
+    [ intros i jj a Hi Hjj; cbv beta; change (item (urow (coefrow CT) i) 0) with (@VInt R (Z.of_nat i));
+      rewrite arg_table_enc; rewrite Nij_getitem by (first [ exact Hjj | pose proof Hlen; lia ]);
+      lazymatch goal with |- context [py_getitem Rops (VList ?l) (VInt (Z.of_nat jj))] =>
+        change l with (map ang (FL (Tc j))) end;
+      rewrite (FL_getitem (Tc j) jj Hjj);
+      unfold angv, ang; pyrunA; reflexivity | ];
+    let E := fresh "E" in
+    destruct (nut_fix_spec KK IA IC RNG CC0 CC1 CCADD AACC CCOND UUPD (coefrow CT) (length CT) 5 (Rlit 0 (-1)) (Rlit 0 (-1))
+                (Tc j) (coefA CT) (coefB CT) Nij (Uij (Tc j)) (acc_of trig) HIA HIC HRNG HC0 HC1 HCADD HACC HCOND HUPD
+                (length CT) 0%nat aa cc dd ii jj0 vv (le_n _)) as (?a' & ?c' & ?i' & ?j' & ?v' & E);
+    rewrite <- Hrows in E; rewrite E; clear E;
+    lazymatch goal with |- Angle___init__ _ _ (mk_tuple [_; _; VFloat ?S1]) _ = _ =>
+      let HS := fresh "HS" in
+      assert (HS : S1 = nut_raw trig CT (Tc j)) by (unfold nut_raw; reflexivity);
+      rewrite HS; clear HS;
+      generalize (nut_raw trig CT (Tc j)); intro; reflexivity
+    end
+  end.
+
+Theorem nutation_longitude_struct j :
+  f_nutation_longitude Rops (VTuple [epo j]) (VDict []) =
+  Angle___init__ Rops (VObj cAngle [VNone; VNone]) (VTuple [VInt 0; VInt 0; VFloat (nut_raw sin SCT (Tc j))]) (VDict []).
+Proof. nut_tac j sine_table_enc SCT sin SCT_len. Qed.
+
+Theorem nutation_obliquity_struct j :
+  f_nutation_obliquity Rops (VTuple [epo j]) (VDict []) =
+  Angle___init__ Rops (VObj cAngle [VNone; VNone]) (VTuple [VInt 0; VInt 0; VFloat (nut_raw cos CCT (Tc j))]) (VDict []).
+Proof. nut_tac j cosine_table_enc CCT cos CCT_len. Qed.
